@@ -276,7 +276,8 @@ def model_mut(c, target_before):
                 else: perm = sorted(range(len(old)), key=lambda i: old[i], reverse=bool(c.get('rev')))
             except TypeError:
                 perm = None
-            m.update(perm=perm)
+            if perm is None: m['n'] = 'sortFail'
+            else: m.update(perm=perm)
         elif n == 'imul': m.update(c=c['c'])
     else:
         if n in ('setitem', 'setdefault'): m.update(key=c['key'], v=raw(c['v']))
@@ -388,14 +389,12 @@ def execute(env, attr, init, prog, created=False, source=None):
                     res.stopped = True
                 else:
                     check_mirror(idx)
-                if mm is None or (c['n'] == 'sort' and mm.get('perm') is None and rerr is None): res.model_valid = False
+                if mm is None or (mm['n'] == 'sortFail' and rerr is None): res.model_valid = False
                 if res.model_valid:
-                    if c['n'] == 'sort' and mm.get('perm') is None:
-                        pass   # the real sort raised before changing anything: no transition in the model
-                    elif paths:
+                    if paths:
                         for p in paths: res.model_ops.append({'t': c['t'], 'p': p, 'm': mm})
                         res.snaps.append((len(res.model_ops) - 1, snap(rerr), idx))
-                    elif isinstance(x, TrackedValue) and rerr is None and notifying(x, c):
+                    elif isinstance(x, TrackedValue) and notifying(x, c) and (rerr is None or (FACTS.get('notifyOnError') and not array_reject)):
                         res.model_ops.append({'t': 'touch'}); res.snaps.append((len(res.model_ops) - 1, snap(None), idx))
                 if res.stopped: break
                 continue
@@ -618,7 +617,9 @@ def classify(prog, unwrapped_pairs):
         if op['op'] == 'call' and 'k' in op and op['k'] is not None:
             vals = [dec(v) for v in op.get('vs', [])] + [dec(v) for _, v in op.get('ps', [])]
             im = {'extend': 'extend', 'iadd': 'iadd', 'setslice': 'setslice', 'setslice_step': 'setslice', 'update': 'update', 'ior': 'ior'}.get(op['n'])
-            if im and any(has_container(v) for v in vals) and [im, MODEL_KIND[op['k']]] in unwrapped_pairs: return KEY_ITER
+            # the known shape: the iterable is not a list / dict / keyword arguments (for |= : not a dict)
+            odd = MODEL_KIND[op['k']] in ('tuple', 'gen') or (im == 'ior' and op['k'] == 'list')
+            if im and odd and any(has_container(v) for v in vals) and [im, MODEL_KIND[op['k']]] in unwrapped_pairs: return KEY_ITER
     for op in prog:
         vals = []
         if op['op'] == 'call': vals = [dec(op[f]) for f in ('v',) if f in op] + [dec(v) for v in op.get('vs', [])] + [dec(v) for _, v in op.get('ps', [])] + [dec(v) for _, v in op.get('kw', [])]
@@ -665,7 +666,37 @@ def report_result(ctx, env, attr, init, prog, res, facts, created=False, label='
         ctx.divergence('in-session value / exception differs from the same operations on a plain Python copy (not the property; the mirror is what '
                        'the model is validated against)', {'attr': attr, 'init': init, 'program': prog[:md['at'] + 1]}, model=md['mirror'], impl=md['real'])
 
-def compare_model(ctx, batch):
+def search_after_divergence(ctx, env, facts, attr, init, prog):
+    """the model and the code disagree after `prog`: look for a loss near it — flush, then change every container of the
+    value in place through an alias, then end the session"""
+    if ctx.counters.get('divergence-followed-up', 0) >= 6: return
+    ctx.count('divergence-followed-up')
+    try:
+        probe = execute(env, attr, init, list(prog))
+    except Exception:
+        return
+    if probe.losses:
+        report_result(ctx, env, attr, init, list(prog), probe, facts, label='follow-up of a divergence'); return
+    # the containers of the value after `prog` (paths from the plain mirror of a dry run)
+    state = {}
+    def source(root, mvars):
+        if 'paths' not in state:
+            state['paths'] = [p for p, c in containers(root)][:10]; state['kinds'] = {json.dumps(p): isinstance(c, list) for p, c in containers(root)}
+        return None
+    try: execute(env, attr, init, list(prog), source=source)
+    except Exception: return
+    for path in state.get('paths', []):
+        is_list = state['kinds'][json.dumps(path)]
+        call = {'op': 'call', 'var': 'zz', 't': 'lmut', 'n': 'append', 'v': 1} if is_list else {'op': 'call', 'var': 'zz', 't': 'dmut', 'n': 'setitem', 'key': 'zz', 'v': 1}
+        if is_list and attr == 'sarr': call['v'] = 'q'
+        cand = list(prog) + [{'op': 'flush'}, {'op': 'take', 'var': 'zz', 'path': path}, call]
+        try: r = execute(env, attr, init, cand)
+        except Exception: continue
+        ctx.case(['follow-up', attr, path], kind='oracle:follow-up of a divergence')
+        if r.losses or r.read_dirty:
+            report_result(ctx, env, attr, init, cand, r, facts, label='follow-up of a divergence'); return
+
+def compare_model(ctx, batch, env=None, facts=None):
     """batch: list of (attr, init, prog, res) with res.model_ops / res.snaps; one driver call"""
     if not ctx.driver.ok:
         ctx.note('driver unavailable: model correspondence skipped'); return
@@ -690,6 +721,7 @@ def compare_model(ctx, batch):
                 which = [k for k in got if got[k] != exp[k]]
                 ctx.divergence('model and real Pony disagree on %s after operation %d' % ('/'.join(which), idx),
                                {'attr': attr, 'init': init, 'program': prog[:idx + 1]}, model={k: exp[k] for k in which}, impl={k: got[k] for k in which})
+                if env is not None: search_after_divergence(ctx, env, facts, attr, init, prog[:idx + 1])
                 break
 
 # ---------------------------------------------------------------------------------------------------------------------
@@ -784,6 +816,15 @@ def witness_programs():
                 {'op': 'call', 't': 'lmut', 'n': 'extend', 'var': 'x', 'k': 'gen', 'vs': [5, 6], 'boom': 1}], False))
     out.append(('ior(bad pair)', 'data', DOC, [{'op': 'take', 'var': 'x', 'path': ['d']},
                 {'op': 'call', 't': 'dmut', 'n': 'ior', 'var': 'x', 'k': 'list', 'ps': [['z', 1]], 'bad': 1}], False))
+    # assignment of a new value (list root, dict root), then changes in place after a flush
+    out.append(('assign(list) then change', 'data', DOC, [{'op': 'assign', 'v': [[1], {'$d': [['k', []]]}]}, {'op': 'flush'}, {'op': 'take', 'var': 'r', 'path': []},
+                {'op': 'call', 't': 'lmut', 'n': 'append', 'var': 'r', 'v': 2}, {'op': 'flush'}, {'op': 'take', 'var': 'y', 'path': [1, 'k']},
+                {'op': 'call', 't': 'lmut', 'n': 'append', 'var': 'y', 'v': 3}], False))
+    out.append(('assign(dict) then change', 'data', DOC, [{'op': 'assign', 'v': {'$d': [['k', [[]]]]}}, {'op': 'commit'}, {'op': 'take', 'var': 'y', 'path': ['k', 0]},
+                {'op': 'call', 't': 'lmut', 'n': 'append', 'var': 'y', 'v': 3}, {'op': 'flush'}, {'op': 'take', 'var': 'r', 'path': []},
+                {'op': 'call', 't': 'dmut', 'n': 'setitem', 'var': 'r', 'key': 'z', 'v': 1}], False))
+    out.append(('assign(array) then change', 'arr', [1, 2], [{'op': 'assign', 'v': [5, 6]}, {'op': 'flush'}, {'op': 'take', 'var': 'r', 'path': []},
+                {'op': 'call', 't': 'lmut', 'n': 'append', 'var': 'r', 'v': 7}], False))
     # created in the same session, before and after the first flush
     for fl in (False, True):
         out.append(('created%s' % ('+flush' if fl else ''), 'data', DOC, ([{'op': 'flush'}] if fl else []) +
@@ -870,7 +911,7 @@ def run_fixed(ctx, env, facts, progs, label):
         if label == 'witness' and not created:
             # the model's verdict for the witness must be the code's verdict
             ctx.extra.setdefault('witnesses', {})[name] = 'lost' if res.losses else 'persisted'
-    compare_model(ctx, batch)
+    compare_model(ctx, batch, env, facts)
 
 def run(ctx):
     facts, tables = check_tables(ctx)
@@ -904,8 +945,8 @@ def run(ctx):
         report_result(ctx, env, attr, init, prog, res, facts)
         if res.model_ops: batch.append((attr, init, prog, res))
         if len(batch) >= 400:
-            compare_model(ctx, batch); batch = []
-    compare_model(ctx, batch)
+            compare_model(ctx, batch, env, facts); batch = []
+    compare_model(ctx, batch, env, facts)
     ctx.extra['updates_seen'] = len(env.updates())
     env.db.disconnect()
 
